@@ -57,7 +57,8 @@ pub const TOKENS: &[&str] = &[
     "'a\n b'", "\"a\n b\"", "\"a\n\n b\"", " ", "  ", "   ", "    ", "\t", " \t", "\t ", "\n", "\n\n", "\r\n", "\r", "\n ",
     "\n  ", "\n   ", "\n\t", "%", "%YAML 1.2\n", "%YAML 1.1\n", "%TAG ! tag:x,1:\n", "%TAG !e! tag:e,2:\n", "%FOO bar\n",
     "%YAML", "%TAG", "@", "`", "\\", "a: b", "a:b", "a : b", "- a\n", "a:\n", "? a\n: b\n", "k: [", "{a: ", "aaaaaaaaaaaaaaaaaaaa",
-    "                  ", "- - - ", "a: &x\n", "<<: *a", "\0", "=", "a\\", "%41", "!a%20b ", "0o17", ".inf", "+", "-a", ":a", "?a",
+    "                  ", "- - - ", "aaaaaaaaaaaaaaa#b", "aaaaaaaaaaaaaaaa#b", "aaaaaaaaaaaaaaaaa#b", "aaaaaaaaaaaaaaa:b", "aaaaaaaaaaaaaaaa: b",
+    "aaaaaaaaaaaaaa é#x", "http://aaaaaaaa.bb#cc", "aaaaaaaaaaaaaaaaaaaaaaaaaaaaaaa#b", "aaaaaaaaaaaaaaaaaaaaaaaaaaaaaaaa#b", "aaaaaaaaaaaaaaa,b", "aaaaaaaaaaaaaaaa]b", "a: &x\n", "<<: *a", "\0", "=", "a\\", "%41", "!a%20b ", "0o17", ".inf", "+", "-a", ":a", "?a",
 ];
 
 pub const LINE_BODIES: &[&str] = &[
@@ -253,4 +254,11 @@ pub const BASE_DOCS: &[&str] = &[
     "--- a\n--- b\n...\n--- c\n",
     "\"a\": 1\n\"b\":2\n",
     "{\"a\":1,\"b\":[true,null,1.5e3,\"x\"]}\n",
+    "--- &a x\n--- *a\n",
+    "&a [b]\n...\n*a\n",
+    "%TAG !e! tag:e,1:\n--- !e!t x\n...\n!e!u y\n",
+    "[ ? ]\n",
+    "[a: {b: c, d: e}, ? : f, : g]\n",
+    "- |1-\n  x\n- >+\n\n",
+    "k: |\n",
 ];
